@@ -42,6 +42,8 @@ type Engine struct {
 	sendCache    map[string]string
 	outOfLine   map[string]bool // "qualified struct type.field": struct-typed field whose address escapes
 	workDir     string
+	hints       *hintStore
+	updateHints bool
 	timeoutS    int
 	verbose     bool
 	loadS       float64
@@ -295,7 +297,7 @@ func (eng *Engine) queryText(g *VCGen, o Obligation, lemmaFacts []string) string
 	for _, f := range lemmaFacts {
 		b.WriteString("(assert " + f + ")\n")
 	}
-	for _, a := range g.asserts[:o.NAssert] {
+	for _, a := range g.relevantAsserts(o) {
 		b.WriteString("(assert " + a + ")\n")
 	}
 	if o.Guard != "true" && o.Guard != "" {
@@ -358,6 +360,13 @@ func (eng *Engine) verifyFunc(fn *ssa.Function, fc *FuncContract) (res FuncResul
 	sort.Strings(res.Callees)
 	res.Warnings = g.warnings
 	res.Obls = make([]OblResult, len(g.obls))
+	// obligation names can repeat within a function (one per dispatch target); hint keys carry the occurrence number
+	occ := make([]int, len(g.obls))
+	seenName := map[string]int{}
+	for i, o := range g.obls {
+		occ[i] = seenName[o.Name]
+		seenName[o.Name]++
+	}
 	parallelDo(len(g.obls), 6, func(i int) {
 		o := g.obls[i]
 		text := texts[i]
@@ -367,14 +376,42 @@ func (eng *Engine) verifyFunc(fn *ssa.Function, fc *FuncContract) (res FuncResul
 			to = 1 // a contradictory precondition is refuted at once; satisfiability of quantified contexts is rarely decided
 		}
 		var r solveResult
+		fullName := fn.String() + "#" + o.Name
+		if occ[i] > 0 {
+			fullName += "~" + itoa(occ[i])
+		}
+		if hint := eng.hints.get(fullName); hint != nil && o.Kind != "cover" {
+			ht, _, _ := hintedText(text, hint)
+			hr := solveWith(eng.workDir, name+".hint", ht, minInt(to, 10), []string{"z3-5.1.0", "z3-4.8.12", "cvc5-1.0"})
+			if hr.status == "unsat" {
+				hr.backend += "+hint"
+				res.Obls[i] = OblResult{Obligation: o, Status: hr.status, Backend: hr.backend, TimeS: hr.timeS, Output: hr.output, File: filepath.Join(eng.workDir, sanitizeFile(name)+".hint.smt2")}
+				return
+			}
+		}
+		defer func() {
+			if eng.updateHints && eng.hints != nil && o.Kind != "cover" && res.Obls[i].Status == "unsat" {
+				if hashes, ok := extractCore(text, 120); ok {
+					eng.hints.put(fullName, hashes)
+				}
+			}
+		}()
 		if textsNoLemma[i] != "" && o.Kind != "cover" {
-			// variant without the quantified lemma facts first (most obligations do not need them, and
-			// they can send the instantiation engines astray); then the full context
-			r = solve(eng.workDir, name+".nolemma", textsNoLemma[i], (to+2)/3, nil)
+			// variant without the quantified lemma facts first, on a short budget (most obligations do not need
+			// them, and they can send the instantiation engines astray); then the full context; and if that
+			// fails too, the lemma-free variant once more on the full budget
+			r = solveWith(eng.workDir, name+".nolemma", textsNoLemma[i], 3, []string{"z3-5.1.0", "z3-5.1.0/noext"})
 			if r.status != "unsat" {
 				r2 := solve(eng.workDir, name, text, to, nil)
 				r2.timeS += r.timeS
 				r = r2
+			}
+			if r.status != "unsat" {
+				r3 := solve(eng.workDir, name+".nolemma", textsNoLemma[i], to, nil)
+				r3.timeS += r.timeS
+				if r3.status == "unsat" {
+					r = r3
+				}
 			}
 		} else {
 			r = solve(eng.workDir, name, text, to, coverOnly(o))
@@ -396,6 +433,13 @@ func (eng *Engine) verifyFunc(fn *ssa.Function, fc *FuncContract) (res FuncResul
 		res.Obls[i] = or
 	})
 	return
+}
+
+func minInt(a, b int) int {
+	if a < b {
+		return a
+	}
+	return b
 }
 
 func shortFuncName(fn *ssa.Function) string {
